@@ -20,6 +20,10 @@ pub enum Mode {
     RawToLibRep,
     /// library REQ <-> library REP over a pipe pair
     EndToEnd,
+    /// library REQ -> k x (library ROUTER, relay, library DEALER) -> library REP and back; the
+    /// prefix lengths are the identities announced by the REQ and by each DEALER but the last
+    /// hop's, so that the request reaches the REP behind exactly that routing prefix
+    Chain,
 }
 
 #[derive(Debug, Clone, Serialize, Deserialize, PartialEq, Eq, Hash)]
@@ -74,6 +78,12 @@ pub fn env_outcome(c: &EnvCase) -> Outcome {
     }
     if c.stale > 0 {
         o.class("stale-rotation-entries");
+    }
+    if c.mode == Mode::Chain {
+        o.class(format!("router-dealer-chain-{}-hops", c.prefix.len().max(1)));
+        if c.prefix.contains(&255) {
+            o.class("chain-with-255-byte-identity");
+        }
     }
     if c.payload.iter().chain(c.reply.iter()).any(|l| *l >= 70_000) {
         o.class("large-frame");
@@ -202,6 +212,119 @@ pub fn env_outcome(c: &EnvCase) -> Outcome {
                     }
                     if other.lib_messages().map(|m| m.len()).unwrap_or(1) != 0 {
                         fail!(f, "C07/rep/reply-on-wrong-connection", "the idle connection received bytes");
+                    }
+                }
+                Mode::Chain => {
+                    // REQ(id p0) -> R1 | D1(id p1) -> R2 | D2(id p2) -> ... -> REP
+                    let ids = prefix_frames(&c.prefix, c.seed);
+                    let hops = ids.len().max(1);
+                    let rq = sim.socket(Kind::Req, ids.first().map(|v| v.as_slice()));
+                    let rp = sim.socket(Kind::Rep, None);
+                    let mut routers = vec![];
+                    let mut dealers = vec![];
+                    for h in 0..hops {
+                        routers.push(sim.socket(Kind::Router, None));
+                        // dealer h announces identity ids[h+1] towards router h+1
+                        dealers.push(sim.socket(Kind::Dealer, ids.get(h + 1).map(|v| v.as_slice())));
+                    }
+                    let mut atts = vec![];
+                    let (x, y, _, _) = sim.connect_libs(rq, routers[0], true);
+                    atts.push(x);
+                    atts.push(y);
+                    for h in 0..hops {
+                        let next = if h + 1 < hops { routers[h + 1] } else { rp };
+                        let (x, y, _, _) = sim.connect_libs(dealers[h], next, true);
+                        atts.push(x);
+                        atts.push(y);
+                    }
+                    let _ = sim.settle().await;
+                    for a in &atts {
+                        if !matches!(sim.out(*a), Some(Out::Attach(Ok(_)))) {
+                            fail!(f, "C07/chain/handshake", "a link of the chain (identities {:?}) failed its handshake: {:?}", c.prefix, sim.out(*a));
+                            return f;
+                        }
+                    }
+                    // the identities each router prepends on the way in: ids[h] if announced,
+                    // otherwise whatever the router generated (learnt from the first request)
+                    for round in 0..2 {
+                        let a = sim.send(rq, &payload);
+                        if !matches!(sim.run(a).await, Ok(Some(Out::Send(Ok(()))))) {
+                            fail!(f, "C07/chain/send-failed", "round {}", round);
+                            return f;
+                        }
+                        let mut want_in: Frames = vec![vec![]];
+                        want_in.extend(payload.clone());
+                        for h in 0..hops {
+                            let r = sim.recv(routers[h]);
+                            let m = match sim.run(r).await {
+                                Ok(Some(Out::Recv(Ok(m)))) => m,
+                                other => {
+                                    fail!(f, "C07/chain/request-lost", "round {} hop {}: ROUTER recv: {:?}", round, h, other.map(|o| o.map(|o| format!("{:?}", o).chars().take(120).collect::<String>())));
+                                    return f;
+                                }
+                            };
+                            let id_ok = match ids.get(h) {
+                                Some(id) => m.first() == Some(id),
+                                None => m.first().map(|x| !x.is_empty()).unwrap_or(false),
+                            };
+                            if !id_ok || m.len() != want_in.len() + 1 || m[1..] != want_in[..] {
+                                fail!(f, "C07/chain/request-envelope", "round {} hop {}: ROUTER handed over frames {:?}, expected the sender's identity followed by {:?}", round, h, lens(&m), lens(&want_in));
+                                return f;
+                            }
+                            want_in = m.clone();
+                            let a = sim.send(dealers[h], &m);
+                            if !matches!(sim.run(a).await, Ok(Some(Out::Send(Ok(()))))) {
+                                fail!(f, "C07/chain/relay-failed", "round {} hop {} inbound", round, h);
+                                return f;
+                            }
+                        }
+                        let r = sim.recv(rp);
+                        match sim.run(r).await {
+                            Ok(Some(Out::Recv(Ok(m)))) if m == payload => {}
+                            other => {
+                                fail!(f, "C07/chain/request-modified", "round {}: REP received {:?} for payload {:?} behind prefix {:?}", round, other.map(|o| o.map(|o| format!("{:?}", o).chars().take(120).collect::<String>())), c.payload, c.prefix);
+                                return f;
+                            }
+                        }
+                        let a = sim.send(rp, &reply);
+                        if !matches!(sim.run(a).await, Ok(Some(Out::Send(Ok(()))))) {
+                            fail!(f, "C07/chain/reply-failed", "round {}", round);
+                            return f;
+                        }
+                        // back: dealer h receives, router h sends
+                        let mut want_back = want_in[..hops + 1].to_vec();
+                        want_back.extend(reply.clone());
+                        for h in (0..hops).rev() {
+                            let r = sim.recv(dealers[h]);
+                            let m = match sim.run(r).await {
+                                Ok(Some(Out::Recv(Ok(m)))) => m,
+                                other => {
+                                    fail!(f, "C07/chain/reply-lost", "round {} hop {}: DEALER recv: {:?}", round, h, other.map(|o| o.map(|o| format!("{:?}", o).chars().take(120).collect::<String>())));
+                                    return f;
+                                }
+                            };
+                            if m != want_back {
+                                fail!(f, "C07/chain/reply-envelope", "round {} hop {}: the reply arrived as {:?}, expected {:?} (the request's route, the delimiter, the reply)", round, h, lens(&m), lens(&want_back));
+                                return f;
+                            }
+                            let a = sim.send(routers[h], &m);
+                            match sim.run(a).await {
+                                Ok(Some(Out::Send(Ok(())))) => {}
+                                other => {
+                                    fail!(f, "C07/chain/reply-not-routed", "round {} hop {}: ROUTER send towards a connected peer with a {}-byte identity: {:?}", round, h, m[0].len(), other.map(|o| o.map(|o| format!("{:?}", o).chars().take(120).collect::<String>())));
+                                    return f;
+                                }
+                            }
+                            want_back.remove(0);
+                        }
+                        let r = sim.recv(rq);
+                        match sim.run(r).await {
+                            Ok(Some(Out::Recv(Ok(m)))) if m == reply => {}
+                            other => {
+                                fail!(f, "C07/chain/reply-modified", "round {}: REQ received {:?} for reply {:?}", round, other.map(|o| o.map(|o| format!("{:?}", o).chars().take(120).collect::<String>())), c.reply);
+                                return f;
+                            }
+                        }
                     }
                 }
                 Mode::EndToEnd => {
@@ -534,6 +657,19 @@ pub fn run(ctx: &Ctx) -> (Report, PropertyMeta) {
             stale: 0,
         });
     }
+    // ROUTER-DEALER chains: announced identities of every boundary length, 1..3 hops
+    for (i, p) in sh.iter().enumerate().filter(|(i, _)| i % 5 == 0) {
+        for prefix in [&[][..], &[1], &[255], &[254], &[5, 255], &[255, 1], &[1, 5, 255], &[255, 255, 255]] {
+            cases.push(EnvCase {
+                mode: Mode::Chain,
+                payload: p.clone(),
+                reply: sh[(i * 7 + 3) % sh.len()].clone(),
+                prefix: prefix.to_vec(),
+                seed: i as u32,
+                stale: 0,
+            });
+        }
+    }
     // the same exchange after 1..3 earlier peers of the REQ have failed (stale rotation entries)
     for (i, p) in sh.iter().enumerate().filter(|(i, _)| i % 7 == 0) {
         for stale in 1..=3usize {
@@ -638,7 +774,7 @@ pub fn run(ctx: &Ctx) -> (Report, PropertyMeta) {
         n,
         16..=40,
         |s| {
-            let mode = s.pick(&[Mode::RawToLibRep, Mode::RawToLibRep, Mode::LibReqRawRep, Mode::EndToEnd]);
+            let mode = s.pick(&[Mode::RawToLibRep, Mode::RawToLibRep, Mode::LibReqRawRep, Mode::EndToEnd, Mode::Chain]);
             let gl = |s: &mut Src<'_>| -> Vec<usize> {
                 let n = s.range(1, 6);
                 (0..n)
@@ -655,6 +791,9 @@ pub fn run(ctx: &Ctx) -> (Report, PropertyMeta) {
             let prefix = if mode == Mode::RawToLibRep {
                 let k = s.range(0, 3);
                 (0..k).map(|_| s.pick(&[1usize, 5, 16, 255])).collect()
+            } else if mode == Mode::Chain {
+                let k = s.range(0, 3);
+                (0..k).map(|_| s.pick(&[1usize, 2, 16, 254, 255])).collect()
             } else {
                 vec![]
             };
@@ -675,13 +814,15 @@ pub fn run(ctx: &Ctx) -> (Report, PropertyMeta) {
     let total = report.evaluations;
     health(&mut report, "empty-frame-in-payload", total, 200);
     health(&mut report, "routing-prefix", total, 200);
+    health_abs(&mut report, "chain-with-255-byte-identity", 100);
+    health_abs(&mut report, "router-dealer-chain-3-hops", 100);
     health_abs(&mut report, "series-with-unanswered-request", 500);
     health_abs(&mut report, "series-with-changing-prefix", 500);
 
     let _ = refcodec::hex;
     let meta = PropertyMeta {
         level: "exploration",
-        rule: "exhaustive payload shapes (1..4 frames, each empty / 1 / 255 / 256 / 70000 bytes) crossed with routing prefixes of 0..3 identity frames, for requests arriving at a library REP from raw REQ / DEALER peers, requests leaving a library REQ towards a raw REP, and library REQ <-> library REP end to end; all degenerate wire envelopes of 1..4 frames; series of 2..8 requests at one library REP over 1..3 connections with changing routing prefixes where some requests are never answered (the reply must carry the envelope of the request being answered, on its connection); proptest random shapes. Oracle (wire level, reference-decoded taps): REQ puts exactly [empty]+payload on the wire and returns a reply with exactly the delimiter removed; REP hands over exactly the frames after the first empty frame and sends prefix+[empty]+reply on the requesting connection only; degenerate envelopes are rejected or dropped and never surface as a zero-frame message. Non-trivial = payload has >= 2 frames or an empty frame, or a routing prefix is present (degenerate cases: all); distinct by shape tuple".into(),
+        rule: "exhaustive payload shapes (1..4 frames, each empty / 1 / 255 / 256 / 70000 bytes) crossed with routing prefixes of 0..3 identity frames, for requests arriving at a library REP from raw REQ / DEALER peers, requests leaving a library REQ towards a raw REP, library REQ <-> library REP end to end, and library REQ -> 1..3 hops of (library ROUTER, relay, library DEALER) -> library REP where the routing prefix consists of the identities (1..255 bytes) the sockets announce and the reply must retrace the route hop by hop; all degenerate wire envelopes of 1..4 frames; series of 2..8 requests at one library REP over 1..3 connections with changing routing prefixes where some requests are never answered (the reply must carry the envelope of the request being answered, on its connection); proptest random shapes. Oracle (wire level, reference-decoded taps): REQ puts exactly [empty]+payload on the wire and returns a reply with exactly the delimiter removed; REP hands over exactly the frames after the first empty frame and sends prefix+[empty]+reply on the requesting connection only; degenerate envelopes are rejected or dropped and never surface as a zero-frame message. Non-trivial = payload has >= 2 frames or an empty frame, or a routing prefix is present (degenerate cases: all); distinct by shape tuple".into(),
         assumptions: vec!["requests with no empty frame at all are outside the statement: only 'no panic, no zero-frame message' is asserted for them".into()],
         exhaustive: false,
     };
